@@ -23,7 +23,7 @@ def programs(tier: str):
         out += list(boolchain_programs(5, 4))
     else:
         out += list(boolchain_programs(6, 5))
-        out += list(chain_sources(3, "marked")) + list(chain_sources(3, "bare")) + list(chain_sources(4, "marked"))
+        out += list(chain_sources(3, "marked")) + list(chain_sources(3, "bare")) + list(chain_sources(4, "marked"))[::4]
         out += list(skeleton_sources(3, "marked", loop_else_upto=2))
         out += list(skeleton_sources(3, "bare", loop_else_upto=2))
         out += list(expr_programs(2, 4))
